@@ -36,7 +36,7 @@ where
     pub fn make_fragments(mtu: usize, next_id: &mut u16, thing: T) -> MakeFragments<T::Buffer> {
         let buf = thing.as_buffer();
         let id = *next_id;
-        *next_id += 1;
+        *next_id = next_id.wrapping_add(1);
         MakeFragments::new(id, mtu, buf)
     }
 
@@ -98,7 +98,18 @@ where
         assert!(mtu > 4);
         let size = mtu - 4;
         let len = buf.remaining();
-        let total = div_ceil(len, size) as u8;
+        let total = div_ceil(len, size);
+        if total > 127 {
+            // does not fit the 7 bit fragment counter: yields no fragments at all
+            return MakeFragments {
+                buf,
+                mtu,
+                id,
+                total: 0,
+                next: 0,
+            };
+        }
+        let total = total as u8;
         MakeFragments {
             buf,
             mtu,
@@ -109,10 +120,17 @@ where
     }
 }
 
+impl<T: Buf> MakeFragments<T> {
+    /// true if the buffer needs more than 127 fragments at this mtu and can not be sent
+    pub fn too_large(&self) -> bool {
+        self.total == 0 && self.buf.has_remaining()
+    }
+}
+
 impl<T: Buf> Iterator for MakeFragments<T> {
     type Item = Bytes;
     fn next(&mut self) -> Option<Bytes> {
-        if self.buf.has_remaining() {
+        if self.buf.has_remaining() && self.next < self.total {
             let data_len = self.buf.remaining().min(self.mtu - 4);
             let mut buf = BytesMut::with_capacity(self.mtu);
             buf.put_u16(self.id);
